@@ -102,10 +102,13 @@ fn build(layout: u32, n_pop: u64, n_sample: u64, profiles: &[Profile], kind: Kin
         let sample: Vec<u32> = bg[..n_sample as usize].to_vec();
         let rest: Vec<u32> = bg[n_sample as usize..].to_vec();
         let mut expected = BTreeMap::new();
-        let name_of = |kind: Kind, x: u32| match kind {
-            Kind::Gene => format!("g{x}"),
-            Kind::Omim => format!("o{x}"),
-            Kind::Orpha => format!("r{x}"),
+        // names are arbitrary strings: some records carry the missing-value marker "-" or no name at all
+        let name_of = |kind: Kind, x: u32| match (x % 5, kind) {
+            (0, _) => "-".to_string(),
+            (1, _) => String::new(),
+            (_, Kind::Gene) => format!("g{x}"),
+            (_, Kind::Omim) => format!("o{x}"),
+            (_, Kind::Orpha) => format!("r{x}"),
         };
         let annotate = |scn: &mut Scenario, kind: Kind, x: u32, t: u32, plain: bool| {
             let t = if layout == 2 && !plain { leaf(t) } else { t };
